@@ -106,6 +106,9 @@ func c13One(env *Env, m *wvlib.Model, c *C13Case) {
 	if sizes == nil {
 		sizes = c13Sizes(c)
 	}
+	if env.Replay != "" {
+		fmt.Printf("sizes: %v\n", sizes)
+	}
 	r := wvlib.NewRng(c.Seed ^ 0xc13)
 	msgs := make([]*pwr.SyncOp, len(sizes))
 	lens := make([]string, len(sizes))
